@@ -15,6 +15,23 @@ theorem ite_not_ok_id {c : Prop} [Decidable c] {e : ErrCls} {x u : PyVal}
     (h : (if c then (Except.error e : R PyVal) else .ok x) = .ok u) : u = x := by
   split at h <;> first | (cases h; rfl) | cases h
 
+theorem c10_pairs_id (gk gv : PyVal → R PyVal) : ∀ (kvs kvs' : List (PyVal × PyVal)),
+    (∀ kv ∈ kvs, (∀ y, gk kv.1 = .ok y → y = kv.1) ∧ (∀ y, gv kv.2 = .ok y → y = kv.2)) →
+    mapE (fun (kv : PyVal × PyVal) =>
+      bindE (gk kv.1) fun k' => bindE (gv kv.2) fun v' => .ok (k', v')) kvs = .ok kvs' →
+    kvs' = kvs
+  | [], kvs', _, hv => by simp only [mapE] at hv; cases hv; rfl
+  | (k, v) :: rest, kvs', hr, hv => by
+    simp only [mapE] at hv
+    rcases bindE_eq_ok hv with ⟨p, h1, h2⟩
+    rcases bindE_eq_ok h2 with ⟨ps, h3, h4⟩
+    cases h4
+    rcases bindE_eq_ok h1 with ⟨k', h5, h6⟩
+    rcases bindE_eq_ok h6 with ⟨v', h7, h8⟩
+    cases h8
+    have hkv := hr (k, v) (by simp)
+    rw [hkv.1 k' h5, hkv.2 v' h7, c10_pairs_id gk gv rest ps (fun kv hkv' => hr kv (by simp [hkv'])) h3]
+
 mutual
 /-- the constructor stores an argument that passes `rawOkV` unchanged -/
 theorem validate_raw_id : ∀ (f : FieldDecl) (v w : PyVal),
@@ -97,12 +114,119 @@ theorem validate_raw_id : ∀ (f : FieldDecl) (v w : PyVal),
     rcases bindE_eq_ok hv with ⟨_, _, h2⟩
     cases h2; rfl
   | .anything, v, w, _, hv => by simp only [validate] at hv; cases hv; rfl
-  | .seqPos _ _ _ _, _, _, hr, _ => by simp [rawOkV] at hr
-  | .setAny _ _, _, _, hr, _ => by simp [rawOkV] at hr
-  | .setOf _ _ _, _, _, hr, _ => by simp [rawOkV] at hr
-  | .tuplePos _ _, _, _, hr, _ => by simp [rawOkV] at hr
-  | .mapAny _, _, _, hr, _ => by simp [rawOkV] at hr
-  | .mapOf _ _ _, _, _, hr, _ => by simp [rawOkV] at hr
+  | .seqPos k items addl sz, v, w, hr, hv => by
+    simp only [rawOkV] at hr
+    simp only [validate, vSeq] at hv
+    cases hs : seqElems k v with
+    | none => simp [hs] at hv
+    | some xs =>
+      obtain ⟨rfl, _⟩ := seqLike_of_seqElems k v xs hs
+      simp only [hs] at hv hr
+      split at hv
+      · cases hv
+      · split at hv
+        · cases hv
+        · split at hv
+          · cases hv
+          · rcases bindE_eq_ok hv with ⟨ys, h1, h2⟩
+            have : ys = xs := validate_raw_zip items xs ys hr h1
+            subst this
+            exact ite_not_ok_id h2
+  | .setAny imm sz, v, w, hr, hv => by
+    simp only [rawOkV] at hr
+    simp only [validate, vSet] at hv
+    cases v
+    case set fr xs =>
+      simp only [and_true_iff] at hr
+      simp only at hv
+      by_cases h1 : (!sizeOk sz xs.length) = true
+      · simp only [h1, if_true] at hv; cases hv
+      · simp only [h1, Bool.false_eq_true, if_false, bindE_ok, dedup_of_nodup xs hr.2] at hv
+        cases hv
+        have : (fr || imm) = fr := by
+          have := hr.1
+          cases fr <;> cases imm <;> simp at this ⊢
+        rw [this]
+    all_goals cases hv
+  | .setOf imm item sz, v, w, hr, hv => by
+    simp only [rawOkV] at hr
+    simp only [validate, vSet] at hv
+    cases v
+    case set fr xs =>
+      simp only [and_true_iff] at hr
+      simp only at hv
+      by_cases h1 : (!sizeOk sz xs.length) = true
+      · simp only [h1, if_true] at hv; cases hv
+      · simp only [h1, Bool.false_eq_true, if_false] at hv
+        rcases bindE_eq_ok hv with ⟨ys, h2, h3⟩
+        have : ys = xs := mapE_id_of xs ys
+          (fun x hx y hy => validate_raw_id item x y ((List.all_eq_true.mp hr.2) x hx) hy) h2
+        subst this
+        rw [dedup_of_nodup ys hr.1.2] at h3
+        have hw := ite_not_ok_id h3
+        subst hw
+        have : (fr || imm) = fr := by
+          have := hr.1.1
+          cases fr <;> cases imm <;> simp at this ⊢
+        rw [this]
+    all_goals cases hv
+  | .tuplePos items uniq, v, w, hr, hv => by
+    simp only [rawOkV] at hr
+    simp only [validate, vTuple] at hv
+    cases v with
+    | tuple xs =>
+      simp only at hr hv
+      split at hv
+      · cases hv
+      · split at hv
+        · cases hv
+        · rcases bindE_eq_ok hv with ⟨ys, h2, h3⟩
+          have : ys = xs := validate_raw_zip items xs ys hr h2
+          subst this
+          exact ite_not_ok_id h3
+    | _ => cases hv
+  | .mapAny sz, v, w, hr, hv => by
+    simp only [rawOkV] at hr
+    simp only [validate, vMap] at hv
+    cases v
+    case dict kvs =>
+      simp only at hr hv
+      by_cases h1 : (!sizeOk sz kvs.length) = true
+      · simp only [h1, if_true] at hv; cases hv
+      · simp only [h1, Bool.false_eq_true, if_false, bindE_ok, dictOfPairs_distinct kvs hr] at hv
+        cases hv; rfl
+    all_goals cases hv
+  | .mapOf kf vf sz, v, w, hr, hv => by
+    simp only [rawOkV] at hr
+    simp only [validate, vMap] at hv
+    cases v
+    case dict kvs =>
+      simp only [and_true_iff] at hr
+      simp only at hv
+      by_cases h1 : (!sizeOk sz kvs.length) = true
+      · simp only [h1, if_true] at hv; cases hv
+      · simp only [h1, Bool.false_eq_true, if_false] at hv
+        rcases bindE_eq_ok hv with ⟨kvs', h2, h3⟩
+        have : kvs' = kvs := c10_pairs_id (validate O kf) (validate O vf) kvs kvs'
+          (fun kv hkv =>
+            have hh := and_true_iff.mp ((List.all_eq_true.mp hr.2) kv hkv)
+            ⟨fun y hy => validate_raw_id kf kv.1 y hh.1 hy, fun y hy => validate_raw_id vf kv.2 y hh.2 hy⟩) h2
+        subst this
+        rw [dictOfPairs_distinct kvs' hr.1] at h3
+        exact ite_not_ok_id h3
+    all_goals cases hv
+
+theorem validate_raw_zip : ∀ (fs : List FieldDecl) (xs ys : List PyVal),
+    rawOkZip fs xs = true → validateZip O fs xs = .ok ys → ys = xs
+  | [], xs, ys, _, hv => by simp only [validateZip] at hv; cases hv; rfl
+  | _ :: _, [], ys, _, hv => by simp only [validateZip] at hv; cases hv; rfl
+  | f :: fs, x :: xs, ys, hr, hv => by
+    simp only [rawOkZip, and_true_iff] at hr
+    simp only [validateZip] at hv
+    rcases bindE_eq_ok hv with ⟨y, h1, h2⟩
+    rcases bindE_eq_ok h2 with ⟨ys', h3, h4⟩
+    cases h4
+    rw [validate_raw_id f x y hr.1 h1, validate_raw_zip fs xs ys' hr.2 h3]
 
 theorem validate_raw_any : ∀ (fs : List FieldDecl) (v w : PyVal),
     rawOkAll fs v = true → validateAny O fs v = .ok w → w = v
